@@ -2,6 +2,7 @@
 //
 //	ops:  rt <ast> <layoutHex> <chunk> <k> <rec>*k   -> S=<hex of the formatted stream> R=<rec>/…/<term>
 //	      rd <ast> <layoutHex> <chunk> <streamHex>    -> R=<rec>/…/<term>
+//	      fm <ast> <layoutHex> <chunk> <k> <rec>*k   -> S=<hex of the formatted stream>      (formatter alone)
 //
 // <ast> is the layout as a syntax tree (what the Lean model interprets), <layoutHex> the layout string printed
 // from it (what the Go code parses; aliases, brace forms and escapes are chosen at random by the printer),
@@ -613,14 +614,45 @@ func genLayout(r *hx.Rng, o genOpts) []item {
 	}
 }
 
+// Cases outside the class of roundtrip_partial (encoded text, ascii numbers that may be negative) can end in a
+// known-finding verdict, and the pipeline does not report model/implementation differences on such lines. So the
+// same content is also emitted as `fm` (formatter alone) and `rd` (reader alone on the formatter's bytes), whose
+// verdict is `-`: there every difference between model and code counts.
+func outsideProved(L []item) bool {
+	chk := func(f fitem) bool { return f.kind == 'X' && f.enc != 'p' || f.kind == 'N' && f.nf == "a" }
+	for _, it := range L {
+		if it.isHdr {
+			for _, f := range it.inner {
+				if chk(f) {
+					return true
+				}
+			}
+		} else if chk(it.f) {
+			return true
+		}
+	}
+	return false
+}
+
 func emitRT(r *hx.Rng, L []item, recs []rec) {
 	var sb strings.Builder
-	fmt.Fprintf(&sb, "rt %s %s %d %d", astTok(L), hex.EncodeToString([]byte(layoutString(r, L))), hx.Pick(r, []int{0, 0, 0, 1, 2, 3, 7, 4096}), len(recs))
+	lay := layoutString(r, L)
+	fmt.Fprintf(&sb, "%s %s %d %d", astTok(L), hex.EncodeToString([]byte(lay)), hx.Pick(r, []int{0, 0, 0, 1, 2, 3, 7, 4096}), len(recs))
 	for _, x := range recs {
 		sb.WriteByte(' ')
 		sb.WriteString(x.tok())
 	}
-	hx.Emit("%s", sb.String())
+	hx.Emit("rt %s", sb.String())
+	if outsideProved(L) && len(recs) > 0 {
+		hx.Emit("fm %s", sb.String())
+		s, err := formatStream(lay, recs)
+		if err != nil {
+			panic("generator: layout rejected by the formatter: " + lay + ": " + err.Error())
+		}
+		if len(s) <= 1<<16 {
+			hx.Emit("rd %s %s %d %s", astTok(L), hex.EncodeToString([]byte(lay)), hx.Pick(r, []int{0, 1, 5}), hx.Hex(nonNil(s)))
+		}
+	}
 }
 
 func emitRD(r *hx.Rng, L []item, stream []byte) {
@@ -758,7 +790,7 @@ func gen(a hx.Args) {
 	}
 	// 2. random layouts and records. Half of the cases stay inside the class where the full statement is
 	// expected to hold for the code as it is (plain text, non-negative ascii), so that a regression there shows.
-	n := a.N(6000, 120000)
+	n := a.N(6000, 30000)
 	for i := 0; i < n; i++ {
 		o := genOpts{}
 		nonNeg := false
@@ -776,7 +808,7 @@ func gen(a hx.Args) {
 		L := genLayout(r, o)
 		wantFit := r.Chance(92)
 		k := hx.Pick(r, []int{0, 1, 1, 1, 2, 2, 3, 5})
-		big := a.Tier == "thorough" || r.Chance(10)
+		big := r.Chance(4)
 		var recs []rec
 		for j := 0; j < k; j++ {
 			recs = append(recs, genRec(r, L, wantFit, nonNeg, big && o.plainOnly))
@@ -892,7 +924,7 @@ func run() {
 		layout := string(lay)
 		chunk := int(hx.Atoi(t[3]))
 		switch t[0] {
-		case "rt":
+		case "rt", "fm":
 			k := int(hx.Atoi(t[4]))
 			if len(t) != 5+k {
 				panic("bad rt op")
@@ -911,6 +943,9 @@ func run() {
 				s = f.AppendRecord(s, x.kgo())
 			}
 			hx.St.Inc("streamlen." + bucket(len(s)))
+			if t[0] == "fm" {
+				return "S=" + hx.Hex(nonNil(s))
+			}
 			res := readAll(layout, s, chunk)
 			if res == "nr-err" {
 				return res
